@@ -163,6 +163,40 @@ def gen_cases(run, n):
     return out
 
 
+def variant_name_sweep_cases(rng):
+    """union / interface members whose names fall on both sides of `Unknown`, `Other` and of each other in every sort order (ASCII,
+    case-insensitive, by length), with and without the other-variant option: whatever order the variants are emitted in, the
+    module must compile (serde wants its catch-all variant last)"""
+    from ..model import Schema, T, NN
+    members = ["Alpha", "Video", "Workspace", "user", "zebra_crossing", "Unit", "Unknowable", "_Hidden"]
+    s = Schema()
+    s.add("Thing", {"kind": "interface", "fields": [{"name": "id", "type": NN(T("ID")), "args": [], "deprecated": None}]})
+    for m in members:
+        s.add(m, {"kind": "object", "implements": ["Thing"], "fields": [{"name": "id", "type": NN(T("ID")), "args": [], "deprecated": None},
+                                                                       {"name": "own%s" % m.strip("_").capitalize(), "type": T("Int"), "args": [], "deprecated": None}]})
+    s.add("Any", {"kind": "union", "members": list(members)})
+    s.add("Query", {"kind": "object", "implements": [], "fields": [{"name": "thing", "type": T("Thing"), "args": [], "deprecated": None},
+                                                                   {"name": "things", "type": T("Thing"), "args": [], "deprecated": None},
+                                                                   {"name": "any", "type": T("Any"), "args": [], "deprecated": None}]})
+    sel = [["field", None, "thing", None, [["typename"], ["field", None, "id", None, None]] + [["inline", m, [["field", None, "own%s" % m.strip("_").capitalize(), None, None]]] for m in members[::2]]],
+           ["field", None, "things", None, [["typename"]]],
+           ["field", None, "any", None, [["typename"]] + [["inline", m, [["field", None, "id", None, None]]] for m in members[1::2]]]]
+    doc = {"operations": [{"kind": "query", "name": "VariantNames", "vars": [], "sel": sel}], "fragments": []}
+    out = []
+    for i, (other, norm, form) in enumerate([(True, None, "library"), (True, "rust", "library"), (True, None, "derive"), (False, None, "library"), (False, "rust", "derive"), (True, "rust", "derive")]):
+        opts = {"other_variant": other}
+        if norm:
+            opts["normalization"] = norm
+        if form == "derive":
+            opts["mode"] = "derive"
+        c = C.make_case("vn%d" % i, s, doc, rng, options=opts, fmt="sdl" if i % 2 == 0 else "json", features=["variant-name-sweep"])
+        if form == "library":
+            c["options"]["mode"] = "cli"
+        c["form"] = form
+        out.append(c)
+    return out
+
+
 def keyword_sweep_cases(rng):
     """every keyword of the Rust reference at once, at every name position, in four documents (normalization none / rust,
     library / derive form): what C11 does one name at a time, here as 'a supported input' in bulk"""
@@ -303,6 +337,7 @@ def main(run):
         cs = gen_cases(run, n)
         if bi == 0:
             cs += keyword_sweep_cases(run.rng)
+            cs += variant_name_sweep_cases(run.rng)
             for w in hazards.cases_for(run, "C02"):
                 w["form"] = w.get("form") or "library"
                 cs.append(w)
